@@ -518,9 +518,10 @@ Record stream := mkStream {
   q_r : list sop;              (* operations[DISPATCH_IO_RANDOM] *)
   q_cur : option sop;          (* stream->op *)
   q_done : list sop;           (* ghost: operations in the order _dispatch_stream_complete_operation saw them *)
-  q_enq : list sop             (* ghost: operations in the order TAILQ_INSERT_TAIL saw them *)
+  q_enq : list sop;            (* ghost: operations in the order TAILQ_INSERT_TAIL saw them *)
+  q_io : list Z                (* ghost: ids of the operations _dispatch_operation_perform was called on, in order *)
 }.
-Definition stream_init := mkStream [] [] None [] [].
+Definition stream_init := mkStream [] [] None [] [] [].
 Definition same_op (a b : sop) : bool := so_id a =? so_id b.
 Fixpoint remove_first (a : sop) (l : list sop) : list sop :=
   match l with [] => [] | h :: t => if same_op a h then t else h :: remove_first a t end.
@@ -548,16 +549,25 @@ Definition complete_op (q : stream) (op : sop) : stream :=
   mkStream (if so_random op then q_s q else remove_first op (q_s q))
            (if so_random op then remove_first op (q_r q) else q_r q)
            (match q_cur q with Some c => if same_op op c then None else Some c | None => None end)
-           (q_done q ++ [op]) (q_enq q).
+           (q_done q ++ [op]) (q_enq q) (q_io q).
 
-(* _dispatch_stream_cleanup_operations(stream, channel): RANDOM list first, then STREAM list, each in list order *)
+(* _dispatch_stream_cleanup_operations(stream, channel): TAILQ_FOREACH_SAFE over the RANDOM list, then over the STREAM
+   list, completing every operation of the channel (all operations when channel == NULL) in list order; stream->op is
+   cleared when it is among them (it always is on one of the lists) *)
 Definition chan_match (ch : option Z) (op : sop) : bool :=
   match ch with None => true | Some c => so_chan op =? c end.
 Definition cleanup_ops (q : stream) (ch : option Z) : stream :=
-  fold_left complete_op (filter (chan_match ch) (q_r q) ++ filter (chan_match ch) (q_s q)) q.
+  mkStream (filter (fun op => negb (chan_match ch op)) (q_s q))
+           (filter (fun op => negb (chan_match ch op)) (q_r q))
+           (match q_cur q with Some c => if chan_match ch c then None else Some c | None => None end)
+           (q_done q ++ filter (chan_match ch) (q_r q) ++ filter (chan_match ch) (q_s q)) (q_enq q) (q_io q).
 
-(* what the handler's result table does with the picked operation *)
-Inductive hres := HKeep | HComplete | HErr.   (* DELIVER/RESUME/FD_ERR | COMPLETE*/error at pick | DISPATCH_OP_ERR *)
+(* what one pass of the handler does with the picked operation *)
+Inductive hres :=
+| HPickErr       (* _dispatch_io_get_error at pick: complete without I/O, goto pick (io.c:2087-2092) *)
+| HKeep          (* perform, then DELIVER / RESUME / FD_ERR: the operation stays *)
+| HComplete      (* perform, then COMPLETE / DELIVER_AND_COMPLETE / COMPLETE_RESUME *)
+| HErr.          (* perform returned DISPATCH_OP_ERR: cleanup of the operation's channel *)
 Inductive sevent :=
 | SEnq (op : sop)                 (* _dispatch_stream_enqueue_operation *)
 | SHandler (r : hres)             (* one pass of _dispatch_stream_handler (a `goto pick` is another pass) *)
@@ -567,17 +577,95 @@ Definition sstep (q : stream) (e : sevent) : stream :=
   match e with
   | SEnq op =>
       mkStream (if so_random op then q_s q else q_s q ++ [op]) (if so_random op then q_r q ++ [op] else q_r q)
-               (q_cur q) (q_done q) (q_enq q ++ [op])
+               (q_cur q) (q_done q) (q_enq q ++ [op]) (q_io q)
   | SHandler r =>
       match pick_next q with
       | None => q
       | Some op =>
+          (* stream->op = op; result = _dispatch_operation_perform(op) *)
+          let q1 := mkStream (q_s q) (q_r q) (Some op) (q_done q) (q_enq q) (q_io q ++ [so_id op]) in
           match r with
-          | HComplete => complete_op q op      (* error at pick: stream->op is not yet set; complete clears it if equal *)
-          | HKeep => mkStream (q_s q) (q_r q) (Some op) (q_done q) (q_enq q)
-          | HErr => cleanup_ops (mkStream (q_s q) (q_r q) (Some op) (q_done q) (q_enq q)) (Some (so_chan op))
+          | HPickErr => complete_op q op
+          | HKeep => q1
+          | HComplete => complete_op q1 op
+          | HErr => cleanup_ops q1 (Some (so_chan op))
           end
       end
   | SCleanup ch => cleanup_ops q ch
   end.
 Definition srun (q : stream) (evs : list sevent) : stream := fold_left sstep evs q.
+
+(* ---------------------------------------------------------------- dispatch_io_barrier: the channel's barrier_queue /
+   barrier_group bookkeeping (io.c:808-832 dispatch_io_barrier, 842-897 dispatch_io_read/write -> 1151-1191
+   _dispatch_operation_enqueue: dispatch_group_enter; 1112-1122 _dispatch_operation_dispose: dispatch_group_leave).
+   The channel queue and the barrier queue are serial queues (FIFO: C02), the barrier queue is suspended / resumed
+   (C06), the group is the one of C07.  What the group does when the count returns to zero is the only part that is
+   not sequential here: dispatch_group_leave observes the zero at its atomic add and detaches the notify list in a
+   later step (semaphore.c:279-299); `atomic_leave` = true collapses the two steps (the ideal group: a notification
+   runs only when the count is zero), false is the group as coded (C07: notify-early is a known finding). *)
+Inductive bitem := IEnq (op : Z) | IBar (id : Z).
+Inductive blog := LEnq (op : Z) | LDone (op : Z) | LBar (id : Z).
+Record bst := mkB {
+  b_q : list bitem;       (* blocks pending on the barrier queue, FIFO *)
+  b_susp : nat;           (* suspend count of the barrier queue *)
+  b_out : list Z;         (* operations between dispatch_group_enter and dispatch_group_leave *)
+  b_notifs : list Z;      (* barrier blocks registered with dispatch_group_notify, not yet submitted *)
+  b_fired : list Z;       (* barrier blocks submitted to the channel's target queue, not yet run *)
+  b_wake : nat;           (* leaves that brought the count to zero and have not yet detached the notify list *)
+  b_exec : list bitem;    (* ghost: blocks the barrier queue has run, in order *)
+  b_log : list blog       (* ghost: what happened, in order *)
+}.
+Definition b_init := mkB [] 0 [] [] [] 0 [] [].
+Definition b_cnt (s : bst) : nat := length (b_out s).   (* the group's count of outstanding enters *)
+Inductive bevent :=
+| BSubmit (i : bitem)     (* dispatch_io_read/write/barrier: channel queue -> dispatch_async(barrier_queue, ...) *)
+| BRun                    (* the barrier queue runs its next block *)
+| BLeave (op : Z)         (* _dispatch_operation_dispose: dispatch_group_leave (the atomic add) *)
+| BWake                   (* _dispatch_group_wake of a leave that observed zero *)
+| BBlock (id : Z).        (* the notify block: barrier(); dispatch_resume(barrier_queue) *)
+Fixpoint zremove (x : Z) (l : list Z) : list Z :=
+  match l with [] => [] | h :: t => if h =? x then t else h :: zremove x t end.
+Fixpoint zmem (x : Z) (l : list Z) : bool :=
+  match l with [] => false | h :: t => (h =? x) || zmem x t end.
+
+Definition bstep (atomic_leave : bool) (s : bst) (e : bevent) : bst :=
+  match e with
+  | BSubmit i => mkB (b_q s ++ [i]) (b_susp s) (b_out s) (b_notifs s) (b_fired s) (b_wake s) (b_exec s) (b_log s)
+  | BRun =>
+      match b_susp s, b_q s with
+      | O, IEnq op :: rest =>
+          (* _dispatch_operation_enqueue: dispatch_group_enter; the operation goes to its stream *)
+          mkB rest O (b_out s ++ [op]) (b_notifs s) (b_fired s) (b_wake s) (b_exec s ++ [IEnq op]) (b_log s ++ [LEnq op])
+      | O, IBar id :: rest =>
+          (* dispatch_suspend(barrier_queue); dispatch_group_notify: submitted at once when the count is zero *)
+          match b_out s with
+          | [] => mkB rest 1 [] (b_notifs s) (b_fired s ++ [id]) (b_wake s) (b_exec s ++ [IBar id]) (b_log s)
+          | _ => mkB rest 1 (b_out s) (b_notifs s ++ [id]) (b_fired s) (b_wake s) (b_exec s ++ [IBar id]) (b_log s)
+          end
+      | _, _ => s
+      end
+  | BLeave op =>
+      if zmem op (b_out s) then
+        let out := zremove op (b_out s) in
+        match out with
+        | [] =>
+            if atomic_leave then
+              mkB (b_q s) (b_susp s) [] [] (b_fired s ++ b_notifs s) (b_wake s) (b_exec s) (b_log s ++ [LDone op])
+            else mkB (b_q s) (b_susp s) [] (b_notifs s) (b_fired s) (S (b_wake s)) (b_exec s) (b_log s ++ [LDone op])
+        | _ => mkB (b_q s) (b_susp s) out (b_notifs s) (b_fired s) (b_wake s) (b_exec s) (b_log s ++ [LDone op])
+        end
+      else s
+  | BWake =>
+      match b_wake s with
+      | O => s
+      | S w => mkB (b_q s) (b_susp s) (b_out s) [] (b_fired s ++ b_notifs s) w (b_exec s) (b_log s)
+      end
+  | BBlock id =>
+      if zmem id (b_fired s) then
+        mkB (b_q s) (pred (b_susp s)) (b_out s) (b_notifs s) (zremove id (b_fired s)) (b_wake s) (b_exec s)
+            (b_log s ++ [LBar id])
+      else s
+  end.
+Definition brun (a : bool) (s : bst) (evs : list bevent) : bst := fold_left (bstep a) evs s.
+(* everything that was submitted, in submission order *)
+Definition b_sub (s : bst) : list bitem := b_exec s ++ b_q s.
